@@ -18,7 +18,7 @@ func ruleC32(c *Ctx) {
 	if rd != nil {
 		var copies []*ssa.Call
 		for _, ci := range allCalls(rd, false) {
-			if call, ok := ci.(*ssa.Call); ok && calleeKey(ci) == "builtin:copy" && isParam("data")(call.Call.Args[0]) {
+			if call, ok := ci.(*ssa.Call); ok && calleeKey(ci) == "builtin:copy" && paramN(1)(call.Call.Args[0]) {
 				copies = append(copies, call)
 			}
 		}
@@ -197,13 +197,13 @@ func ruleC33(c *Ctx) {
 		// every arithmetic use of skip is guarded by a comparison of skip
 		n, bad := 0, ""
 		for _, bo := range rawArith(lh) {
-			if !mentions(bo, isParam("skip"), 3, nil) {
+			if !mentions(bo, paramN(3), 3, nil) {
 				continue
 			}
 			n++
 			guarded := false
 			for ft := range factsAt(bo) {
-				if strings.Contains(ft, "param:skip") && (strings.Contains(ft, " < ") || strings.Contains(ft, " <= ") || strings.Contains(ft, " > ") || strings.Contains(ft, " >= ")) {
+				if strings.Contains(ft, "param#3") && (strings.Contains(ft, " < ") || strings.Contains(ft, " <= ") || strings.Contains(ft, " > ") || strings.Contains(ft, " >= ")) {
 					guarded = true
 				}
 			}
@@ -258,7 +258,7 @@ func ruleC33(c *Ctx) {
 		// empty answer unless stop is on the main chain
 		nst := 0
 		for _, s := range callsTo(lh, false, "(netsync/chainmgr.Chain).InMainChain") {
-			if mentions(s.Common().Args[0], isParam("stopHash"), 3, nil) {
+			if mentions(s.Common().Args[0], paramN(2), 3, nil) {
 				nst++
 			}
 		}
@@ -278,7 +278,7 @@ func ruleC33(c *Ctx) {
 		okb := false
 		for _, b := range lh.Blocks {
 			if iff, ok := b.Instrs[len(b.Instrs)-1].(*ssa.If); ok {
-				if bo, ok := iff.Cond.(*ssa.BinOp); ok && bo.Op.String() == "<" && mentions(bo.Y, isParam("maxNum"), 2, nil) {
+				if bo, ok := iff.Cond.(*ssa.BinOp); ok && bo.Op.String() == "<" && mentions(bo.Y, paramN(4), 2, nil) {
 					if hh, body := innermostLoop(b); hh == b && len(body) > 1 {
 						okb = true
 					}
@@ -452,7 +452,7 @@ func ruleC35(c *Ctx) {
 				for _, in := range b.Instrs {
 					if ia, ok := in.(*ssa.IndexAddr); ok {
 						if g, ok := ia.X.(*ssa.Global); ok && g.Name() == "precomputedFactor" {
-							okt = factsAt(ia)["param:t < "+c.constVal(pk, "precomputedLen")]
+							okt = factsAt(ia)["param#0 < "+c.constVal(pk, "precomputedLen")]
 						}
 					}
 				}
@@ -470,7 +470,7 @@ func ruleC35(c *Ctx) {
 			for _, fld := range []string{"transient", "lastUnix"} {
 				for _, st := range c.writersOfIn(inc, pk+".DynamicBanScore", fld) {
 					have := factsAt(st)
-					if !have["param:transient > 0"] && !have["0 < param:transient"] {
+					if !have["param#2 > 0"] && !have["0 < param#2"] {
 						okp = false
 						d = fld + " is written at " + c.Pos(st.Pos()) + " outside the `transient > 0` branch (decay and clock would drift apart)"
 					}
@@ -568,7 +568,7 @@ func ruleC36(c *Ctx) {
 		for _, mu := range mapUpdatesOf(ck, "net/http/authn.API", "tokenMap") {
 			c.RequireFactsAtInstr("facts", fname(ck)+": the cache is written only after CredentialStore.Check succeeded", mu, "call:(*accesstoken.CredentialStore).Check == nil")
 			// key separates id and secret
-			ok := mentions(mu.Key, isParam("user"), 6, nil) && mentions(mu.Key, isParam("pw"), 6, nil) && mentions(mu.Key, func(v ssa.Value) bool {
+			ok := mentions(mu.Key, paramN(2), 6, nil) && mentions(mu.Key, paramN(3), 6, nil) && mentions(mu.Key, func(v ssa.Value) bool {
 				k, isK := v.(*ssa.Const)
 				return isK && k.Value != nil && strings.ContainsAny(strings.Trim(k.Value.ExactString(), "\""), ":\x00/ ")
 			}, 6, nil)
@@ -603,7 +603,7 @@ func ruleC36(c *Ctx) {
 			n++
 			eq := false
 			for ft := range factsAt(ri.Ret) {
-				if strings.HasSuffix(ft, "== param:secret") || strings.HasPrefix(ft, "param:secret == ") {
+				if strings.HasSuffix(ft, "== param#2") || strings.HasPrefix(ft, "param#2 == ") {
 					eq = true
 				}
 			}
